@@ -109,8 +109,18 @@ class Setup:
         return U.run_pack(self.root, self.df, self.cuts, self.k, self.mode, 'snappy', overwrite=overwrite,
                           plan=plan, K=self.K)
 
-    def snapshot(self, cells):
-        return F.fs_term(self.root, U.Classifier(self.root, self.df, cells))
+    def snapshot(self, cells, ref=None):
+        return F.fs_term(self.root, U.Classifier(self.root, self.df, cells, ref))
+
+    def metadata_ref(self, tree):
+        """{basename: (bytes, content term)} of the dataset's metadata files"""
+        out = {}
+        for base, ctor in (('_metadata', 'NMeta'), ('_common_metadata', 'NCommon')):
+            ap = os.path.join(self.root, U.DS, base)
+            for pth, node in tree:
+                if len(pth) == 2 and pth[1].ctor == ctor and node.ctor == 'File' and os.path.isfile(ap):
+                    out[base] = (open(ap, 'rb').read(), node.args[0])
+        return out
 
     def config(self, o, overwrite=True):
         asg, iorder = U.assignment_of(o, len(self.cuts) - 1, self.mode)
@@ -144,13 +154,17 @@ def comparable(kind, op, path, in_final, mode):
     return False
 
 
-def site_of(f, clean):
-    """where in the procedure the call at a fired fault sits (from the fault-free trace)"""
+RX_PART = re.compile(r'^%s/part\.\d+\.parquet$' % U.DS)
+
+
+def site_of(f, trace):
+    """where in the procedure the call of a fired fault sits, read off the run's own trace:
+    <kind>@<op>:<path class>[:<enclosing function>]"""
     pos, kind, op, path = f[0], f[1], f[2], f[3]
     base = path.split('/')[-1]
     if path == U.DS:
         cls = 'dataset'
-    elif re.match(r'^%s/part\.\d+\.parquet$' % U.DS, path):
+    elif RX_PART.match(path):
         cls = 'part'
     elif re.match(r'^(.*/)?t\d+$', path):
         cls = 'tmpdir'
@@ -161,21 +175,30 @@ def site_of(f, clean):
     else:
         cls = 'other'
     where = ''
-    tr = clean['trace']
-    if pos - 1 > clean['final_start'] or (pos - 1 == clean['final_start']):
+    j = pos - 1
+    finals = [i for i, t in enumerate(trace) if t[0] == 'exists' and t[1] == U.DS and i > 2]
+    later = trace[j + 1:]
+    if finals and j >= finals[-1] and not any(t[0] in ('rm', 'makedirs', 'open_w') for t in later):
         where = 'final-read'
-    elif op == 'exists' and pos <= len(tr) and tr[pos - 1][:2] == (op, path):
-        nxt = tr[pos] if pos < len(tr) else ('',)
-        prv = tr[pos - 2] if pos >= 2 else ('',)
-        if nxt[0] == 'rm' and nxt[1] == path:
-            where = 'rm_retry'
-        elif prv[0] == 'rm' and prv[1] == path:
-            where = 'rm_retry-recheck'
-        elif nxt[0] == 'mv':
-            where = 'move_retry'
-        else:
-            where = 'rm_retry-absent'
+    elif op == 'exists':
+        concat_later = any(t[0] in ('rm', 'ls', 'makedirs') or (t[0] == 'open_w' and RX_PART.match(t[1]))
+                           for t in later)
+        where = 'rm_retry' if (cls in ('tmpdir', 'dataset') or concat_later) else 'move_retry'
     return f'{kind}@{op}:{cls}' + (f':{where}' if where else '')
+
+
+def mechanism(sites):
+    """the recorded mechanisms by which a non-raising fault defeats the retry logic"""
+    for s_ in sorted(sites):
+        if s_.startswith('lie@exists:') and s_.endswith(':rm_retry'):
+            return 'lying-exists:rm_retry'
+    for s_ in sorted(sites):
+        if s_.startswith('lie@exists:') and s_.endswith(':move_retry'):
+            return 'lying-exists:move_retry'
+    for s_ in sorted(sites):
+        if s_.startswith('stale') and '@find:dataset:final-read' in s_:
+            return 'stale-final-listing'
+    return None
 
 
 class Collector:
@@ -192,8 +215,15 @@ def judge(rep, st, col, clean, o, label, plan_desc):
     rep.count('raised' if raised else 'returned')
     for f in o.fired:
         rep.count(f'fired:{f[1]}:{f[2]}')
-    tree = st.snapshot(clean['cells'])
-    kinds = '+'.join(sorted({site_of(f, clean) for f in o.fired})) or 'none'
+    tree = st.snapshot(clean['cells'], clean['ref'])
+    sites = {site_of(f, o.trace) for f in o.fired}
+    kinds = '+'.join(sorted(sites)) or 'none'
+    mech = mechanism(sites)
+
+    def sig(symptom):
+        # one signature per mechanism for the two fault kinds that are known to defeat the
+        # retry logic; every other failure keeps its own symptom:site signature
+        return mech if mech else f'{symptom}:{kinds}'
     in_final = any(f[0] - 1 >= clean['final_start'] for f in o.fired)
     tree_same = norm_tree(tree) == clean['norm']
     # ---- the property itself
@@ -201,7 +231,7 @@ def judge(rep, st, col, clean, o, label, plan_desc):
         if not tree_same:
             extra = sorted(set(map(json.dumps, C.jsonable(tree))) - set(map(json.dumps, C.jsonable(clean['tree']))))
             missing = sorted(set(map(json.dumps, C.jsonable(clean['tree']))) - set(map(json.dumps, C.jsonable(tree))))
-            rep.violation(f'silent-different-tree:{kinds}',
+            rep.violation(sig('silent-different-tree'),
                           'the call returned normally but the tree differs from the fault-free one '
                           f'(faults {o.fired})', {**meta, 'extra': extra[:10], 'missing': missing[:10]})
         # an independent read of the dataset: always when the tree differs, else on a sample
@@ -213,10 +243,10 @@ def judge(rep, st, col, clean, o, label, plan_desc):
                 from spatialpandas.io import read_parquet_dask
                 got = read_parquet_dask(os.path.join(st.root, U.DS)).compute()
                 if U.row_key(got) != st.want_rows:
-                    rep.violation(f'silent-wrong-rows:{kinds}', 'the call returned normally but the dataset does '
+                    rep.violation(sig('silent-wrong-rows'), 'the call returned normally but the dataset does '
                                   f'not read back with the input rows (faults {o.fired})', {**meta, 'n_got': len(got)})
             except Exception as e:  # noqa: BLE001
-                rep.violation(f'silent-unreadable:{kinds}', f'the call returned normally but the dataset cannot be '
+                rep.violation(sig('silent-unreadable'), f'the call returned normally but the dataset cannot be '
                               f'read: {type(e).__name__} {str(e)[-160:]}', meta)
         # the returned (lazy) frame was built from listings made during the call
         if not tree_same or in_final or rep.evaluations % 4 == 1:
@@ -224,11 +254,11 @@ def judge(rep, st, col, clean, o, label, plan_desc):
             try:
                 got = o.frame.compute()
                 if U.row_key(got) != st.want_rows:
-                    rep.violation(f'returned-frame-rows:{kinds}',
+                    rep.violation(sig('returned-frame-rows'),
                                   'the call returned normally but the returned frame does not hold the input rows '
                                   f'(faults {o.fired})', {**meta, 'n_got': len(got)})
             except Exception as e:  # noqa: BLE001
-                rep.violation(f'returned-frame-raises:{kinds}', f'computing the returned frame raised '
+                rep.violation(sig('returned-frame-raises'), f'computing the returned frame raised '
                               f'{type(e).__name__} {str(e)[-160:]}', meta)
     # ---- correspondence with the model
     asg, cfg = st.config(o)
@@ -252,15 +282,15 @@ def judge(rep, st, col, clean, o, label, plan_desc):
         o2 = st.run(plan=None, overwrite=True)
         rep.count('recover-runs')
         if o2.raised is not None:
-            rep.violation(f'recover-raises:{kinds}', 'after an aborted run the repeat with overwrite=True raised '
+            rep.violation(sig('recover-raises'), 'after an aborted run the repeat with overwrite=True raised '
                           f'{type(o2.raised).__name__}: {str(o2.raised)[:200]}', meta)
         else:
-            tree2 = st.snapshot(clean['cells'])
+            tree2 = st.snapshot(clean['cells'], clean['ref'])
             a, b = norm_tree(ds_only(tree2)), norm_tree(ds_only(clean['tree']))
             if st.mode == 'flat':
                 a, b = norm_tree(tree2), clean['norm']
             if a != b:
-                rep.violation(f'recover-differs:{kinds}', 'after an aborted run the repeat with overwrite=True left '
+                rep.violation(sig('recover-differs'), 'after an aborted run the repeat with overwrite=True left '
                               'a tree different from the fault-free one', meta)
             asg2, cfg2 = st.config(o2)
             parts = [e for e in ds_only(tree2)]
@@ -271,13 +301,17 @@ def judge(rep, st, col, clean, o, label, plan_desc):
 
 def find_setups(rep, root, tier):
     K = 3
-    out = [Setup(rep, root, 'A-inside', 6, 'plain', [0, 3, 6], 3, 'inside', K),
-           Setup(rep, root, 'A-flat', 6, 'plain', [0, 3, 6], 3, 'flat', K),
-           # k > number of distinct keys: empty outputs in front of non-empty ones (compaction moves)
-           Setup(rep, root, 'B-inside', 4, 'dup', [0, 2, 4], 5, 'inside', K),
-           Setup(rep, root, 'B-flat', 4, 'dup', [0, 2, 4], 5, 'flat', K)]
+    # M: 5 rows with duplicate keys, inputs [0:2], [2:5], npartitions=4 -> assignment
+    # [[0, 3], [0, 2, 3]]: outputs fed by two sub-parts, an empty output in front of non-empty
+    # ones (compaction moves 2 -> 1 and 3 -> 2)
+    out = [Setup(rep, root, 'M-inside', 5, 'dup', [0, 2, 5], 4, 'inside', K),
+           Setup(rep, root, 'M-flat', 5, 'dup', [0, 2, 5], 4, 'flat', K)]
     if tier != 'quick':
-        out += [Setup(rep, root, 'A-uuid', 6, 'plain', [0, 3, 6], 3, 'uuid', K),
+        out += [Setup(rep, root, 'M-uuid', 5, 'dup', [0, 2, 5], 4, 'uuid', K),
+                Setup(rep, root, 'A-inside', 6, 'plain', [0, 3, 6], 3, 'inside', K),
+                Setup(rep, root, 'A-flat', 6, 'plain', [0, 3, 6], 3, 'flat', K),
+                Setup(rep, root, 'B-inside', 4, 'dup', [0, 2, 4], 5, 'inside', K),
+                Setup(rep, root, 'B-flat', 4, 'dup', [0, 2, 4], 5, 'flat', K),
                 Setup(rep, root, 'B-uuid', 4, 'dup', [0, 2, 4], 5, 'uuid', K),
                 Setup(rep, root, 'C-inside', 9, 'miss', [0, 2, 2, 9], 6, 'inside', 2),
                 Setup(rep, root, 'C-flat', 9, 'miss', [0, 2, 2, 9], 6, 'flat', 4)]
@@ -303,7 +337,7 @@ def run_setup(rep, st, col, tier):
     L = len(o.trace)
     final_start = max(j for j, t in enumerate(o.trace) if t[0] == 'exists' and t[1] == U.DS)  # 0-based index
     clean = {'f0': f0, 'tree': tree, 'norm': norm_tree(tree), 'cells': dict(o.cells), 'trace': o.trace,
-             'final_start': final_start, 'parts': parts}
+             'final_start': final_start, 'parts': parts, 'ref': st.metadata_ref(tree)}
     got = o.frame.compute()
     if U.row_key(got) != st.want_rows:
         rep.violation('clean-run-rows', 'the fault-free run does not return the input rows', meta)
@@ -330,8 +364,8 @@ def run_setup(rep, st, col, tier):
                 continue
             if tier == 'quick' and kind == 'stale0' and op != 'find':
                 continue
-            if tier == 'quick' and kind == 'fnf' and st.name in ('A-flat', 'B-inside') and op != 'open_r':
-                continue
+            if tier == 'quick' and kind == 'fnf' and op in ('makedirs', 'rm', 'mv', 'open_w'):
+                continue     # quick: FileNotFoundError only where a caller could tell it from OSError
             go({pos: kind}, 'single')
     # ---- faults that persist over r consecutive attempts of the same call (r <= K: within the
     #      budget when the call is retried; r = K, K+1: the budget is exhausted)
@@ -356,10 +390,11 @@ def run_setup(rep, st, col, tier):
 def run(rep):
     import dask
     tier = getattr(rep, 'tier_run', rep.tier)
-    rep.rule = ('setups: 6 rows / 2 input partitions / npartitions=3 (no empty output) and 4 rows with duplicate '
-                'keys / npartitions=5 (empty outputs in front of non-empty ones, so compaction moves happen), '
-                'each with the temp directories inside the dataset and outside it (thorough: + {uuid} parent, '
-                '+ 9 rows / 3 input partitions one of them empty / budgets 2 and 4), always over a prior '
+    rep.rule = ('setups: 5 rows with duplicate keys / 2 input partitions / npartitions=4 (assignment [[0,3],[0,2,3]]: '
+                'outputs fed by two sub-parts, an empty output in front of non-empty ones, so compaction moves '
+                'happen), with the temp directories inside the dataset and outside it (thorough: + {uuid} parent, '
+                '+ 6 rows / npartitions=3 without empty outputs, + 4 rows / npartitions=5, + 9 rows / 3 input '
+                'partitions one of them empty / budgets 2 and 4), always over a prior '
                 'dataset with overwrite=True; retry budget K attempts, no waiting.  Faults: every position of '
                 'the recorded call trace x every kind applicable to the call there (OSError before, '
                 'FileNotFoundError before, OSError after the effect, OSError after a partial effect, stale '
@@ -373,7 +408,11 @@ def run(rep):
                 run_setup(rep, st, col, tier)
     finally:
         shutil.rmtree(root, ignore_errors=True)
+    import time
+    t_runs = time.time() - rep.t0
     bad = C.coq_mismatches(IMPORTS, 'packF_check', CASE_TY, RES_TY, col.cases, col.results, shard=40)
+    rep.extra['seconds_real_runs'] = round(t_runs, 1)
+    rep.extra['seconds_model_eval'] = round(time.time() - rep.t0 - t_runs, 1)
     seen = set()
     for i in bad:
         m = col.metas[i]
@@ -415,7 +454,7 @@ def replay(rep, rp):
             parts = [F.cells_term(pc[0]) for _, pc in cl.dataset_parts(os.path.join(st.root, U.DS))]
             final_start = max(j for j, t in enumerate(o.trace) if t[0] == 'exists' and t[1] == U.DS)
             clean = {'f0': f0, 'tree': tree, 'norm': norm_tree(tree), 'cells': dict(o.cells), 'trace': o.trace,
-                     'final_start': final_start, 'parts': parts}
+                     'final_start': final_start, 'parts': parts, 'ref': st.metadata_ref(tree)}
             plan = {}
             for k, v in (rp.get('plan') or {}).items() if isinstance(rp.get('plan'), dict) else []:
                 plan[int(k)] = tuple(v) if isinstance(v, list) else v
